@@ -142,6 +142,11 @@ func (e Expr) Build() qframe.Expression {
 	for i, a := range e.Args {
 		args[i] = a.rawValue()
 	}
+	if len(args) >= 3 {
+		// the argument slice belongs to the caller, who may build further expressions from it: the expression
+		// that counts is the second one built from the same slice
+		_ = qframe.Expr(e.Fn, args...)
+	}
 	return qframe.Expr(e.Fn, args...)
 }
 
@@ -179,6 +184,10 @@ var UserFns = []userFn{
 	{"+", KString, 2, KString, Str2},         // shadows string concatenation
 	{"nimp", KBool, 2, KBool, Bool2},         // non-commutative
 	{"upper", KString, 1, KString, StrToStr}, // shadows upper
+	// one name under both arities (lookup is by name, operand type AND arity)
+	{"-", KInt, 1, KInt, IntToInt},    // unary, next to the built-in binary minus
+	{"!", KBool, 2, KBool, Bool2},     // binary, next to the built-in unary not
+	{"sub2", KInt, 1, KInt, IntToInt}, // unary, next to the user's binary sub2
 }
 
 // NewCtx returns a context with the user functions registered.
